@@ -43,6 +43,9 @@ def build_doc(c):
                 # a provisional rectangle left by an earlier stage, smaller than the module's area (the declared area is what counts)
                 side = math.sqrt(float(m["area_f"])) * m["prov"][2] / 8
                 d["rectangles"] = [[X.num(m["prov"][0] * u / 2), X.num(m["prov"][1] * u / 2), side, side]]
+        elif m["kind"] == "hard" and m.get("pad"):
+            # a movable I/O pad: a terminal that has a shape - a hard module like any other
+            d = {"terminal": True, "rectangles": [D.rect_entry(r, unit) for r in m["rects"]]}
         elif m["kind"] == "hard":
             d = {"hard": True, "rectangles": [D.rect_entry(r, unit) for r in m["rects"]]}
         elif m["kind"] == "pin":  # a fixed terminal (I/O pin), typically on the border of the die
@@ -143,6 +146,8 @@ def run_spectral(c):
         cls.append("tight-fit")
     if prov:
         cls.append("soft-module-with-a-provisional-rectangle")
+    if any(m.get("pad") for m in c["modules"]):
+        cls.append("movable-terminal-with-rectangles")
     if max(W, H) >= 5 * min(W, H):
         cls.append("elongated-die")
     return dict(nt=big, cls=cls)
@@ -189,7 +194,7 @@ def design_s(draw):
                 rs = [[0, 0, draw(_i(1, lim)), draw(_i(1, lim))]]
             ox, oy = draw(_i(0, W)), draw(_i(0, H))
             rs = [[r[0] + ox, r[1] + oy, r[2] + ox, r[3] + oy] for r in rs]
-            m = dict(name="H%d" % i, kind="hard", rects=rs)
+            m = dict(name="H%d" % i, kind="hard", rects=rs, pad=draw(_i(0, 3)) == 0)
         mods.append(m)
     mods = list(draw(st.permutations(mods))) if draw(st.booleans()) else mods
     names = [m["name"] for m in mods]
@@ -242,4 +247,4 @@ def general_position(mods, unit):
 
 def subchecks():
     return [Sub("placements", run_spectral, strategy=design_s(), n_quick=1400, n_thorough=40000, shrink_quick=True,
-                required=("trials=0", "trials=1", "trials=5", "hard-movable", "with-fixed", "tight-fit", "elongated-die", "fixed-pin-on-left-or-bottom-border", "soft-module-with-a-provisional-rectangle"))]
+                required=("trials=0", "trials=1", "trials=5", "hard-movable", "with-fixed", "tight-fit", "elongated-die", "fixed-pin-on-left-or-bottom-border", "soft-module-with-a-provisional-rectangle", "movable-terminal-with-rectangles"))]
